@@ -249,6 +249,12 @@ pub fn hevc_annexb_to_hvcc(data: &[u8]) -> Vec<u8> {
 
 /// Check if the given Annex B data represents an HEVC keyframe (IRAP).
 pub fn is_hevc_keyframe(data: &[u8]) -> bool {
+    // Degenerate input (empty, or without any start code) contains no keyframe;
+    // it is caller data, not an internal invariant violation.
+    if data.is_empty() || AnnexBNalIter::new(data).next().is_none() {
+        return false;
+    }
+
     assert_invariant!(
         !data.is_empty(),
         "INV-503: HEVC keyframe detection requires non-empty data"
